@@ -214,8 +214,12 @@ def _parse_raw_data(region_str):
 
             # NOTE: include=1/0 in metadata overrides the leading
             #       "-/+" symbol; -: include=0;, + or '': include=1
-            include = 0 if include_symbol == '-' else 1
-            include_meta = {'include': include}
+            #       (no symbol: included unless a global include=0 applies)
+            include_meta = {}
+            if include_symbol == '-':
+                include_meta = {'include': 0}
+            elif include_symbol == '+':
+                include_meta = {'include': 1}
 
             params_str, meta_str = _parse_shape_line(shape, original_line,
                                                      match.span())
@@ -361,7 +365,8 @@ def _define_raw_metadata(global_meta, composite_meta, include_meta,
     meta : tuple of dict
         The (valid) raw metadata extracted from the region file.
     """
-    all_meta = global_meta.copy()
+    all_meta = {'include': 1}  # default if not set anywhere
+    all_meta.update(global_meta)
     all_meta.update(composite_meta)
     all_meta.update(include_meta)
     # region_meta must come after include_meta because include=1/0 in
